@@ -151,6 +151,34 @@ class Harness(object):
         self.db.remove_remote(self._nid_of(x))
         self.m.live.remove(x)
 
+    def _near_miss(self, x, how):
+        f = list(x["fields"])
+        if how == "no-name-qualifier":
+            f[0] = None
+        elif how == "other-sp-qualifier":
+            f[1] = "https://someone-else.example.org/md"
+        elif how == "other-sp-provided-id":
+            f[3] = (f[3] or "") + "x"
+        else:
+            f[2] = self.TRANS if f[2] != self.TRANS else self.PERS
+        return self.NameID(name_qualifier=f[0], sp_name_qualifier=f[1], format=f[2], sp_provided_id=f[3], text=f[4]), tuple(f)
+
+    def op_remove_remote_nearmiss(self, k, how):
+        """a NameID that has the text of a live identifier but differs in another field is not that identifier: the call may refuse (and
+        must then leave everything as it was) or succeed without touching the identifier it does not name"""
+        x = self.m.live[k % len(self.m.live)]
+        nid, f = self._near_miss(x, how)
+        if f == tuple(x["fields"]):
+            return
+        self.db.remove_remote(nid)
+
+    def op_manage_nearmiss(self, k, how):
+        x = self.m.live[k % len(self.m.live)]
+        nid, f = self._near_miss(x, how)
+        if f == tuple(x["fields"]):
+            return
+        self.db.handle_manage_name_id_request(nid, new_id=self.NewID(text="spid-near"))
+
     def op_remove_local(self, u):
         self.db.remove_local(u)
         self.m.live = [x for x in self.m.live if x["user"] != u]
@@ -232,6 +260,8 @@ def alphabet(h, sps=SPS):
         ops.append(("remove_local", u))
     n = len(h.m.live)
     for k in range(n):
+        ops.append(("remove_remote_nearmiss", k, ["no-name-qualifier", "other-sp-qualifier", "other-sp-provided-id", "other-format"][k % 4]))
+        ops.append(("manage_nearmiss", k, ["other-sp-qualifier", "no-name-qualifier", "other-format", "other-sp-provided-id"][k % 4]))
         ops.append(("remove_remote", k))
         ops.append(("manage", k, "spid-1"))
         ops.append(("manage", k, ""))
